@@ -1,4 +1,5 @@
 From Coq Require Import Extraction ExtrOcamlBasic.
 From OV Require Import Common.Base C13.Model.
+From OV Require C13.Linearizable.
 Extraction Language OCaml.
-Extraction "C13_model.ml" init_state_gen empty_store step get_handler no_faults no_guard Repaired PreAudit2 RestoreUnreported BootUnatomic FrrDefect Defective.
+Extraction "C13_model.ml" init_state_gen empty_store step get_handler no_faults no_guard Repaired PreAudit2 RestoreUnreported BootUnatomic FrrDefect Defective OV.C13.Linearizable.mgr_step.
